@@ -29,3 +29,58 @@ Theorem C05_handler_flag :
     snd (solout O C s xold x y sg) = Common.Continue \/ snd (solout O C s xold x y sg) = Common.Interrupt.
 Proof. exact @solout_flag. Qed.
 Print Assumptions C05_handler_flag.
+
+(* ---------------- the whole run (real-number semantics) ----------------
+   For ANY slack tol >= 0, ANY chain of accepted steps x0 < x1 < ... < xN with ANY per-step interpolants, ANY initial state
+   and ANY requested times `te` that are sorted in the direction of integration and lie in [x0, xN] (up to the slack at
+   x0): after the initial callback (`scan_initial`) and the steps (`scan_step`, iterated by `run_steps` with the handler's
+   own bookkeeping `skipn next_idx te`), the reported times are exactly `te` -- same values, same order, duplicates kept,
+   none skipped, none added -- and there is one reported state per time.  `sample_scans` says the handler's `sample`
+   (Mode 1) is these two scans.  Backward integration: the mirror statement.
+   Not covered by this theorem: the terminal-event branch (C10's statements + replay) and number types with rounding. *)
+Require Import Reals Lra.
+Require Import IVP.model.RealOps IVP.proofs.TevalRun.
+Local Open Scope R_scope.
+
+Theorem C05_teval_exact_forward :
+  forall (tol : R), 0 <= tol -> forall te : list R,
+    (forall i j, (i <= j < length te)%nat -> nth i te 0 <= nth j te 0) ->
+    forall x0 y0 chain,
+      chain_ok x0 chain ->
+      (forall v, In v te -> x0 - tol <= v <= chain_end x0 chain) ->
+      let '(i0, t0, ys0) := scan_initial Rops tol x0 y0 te 0 nil nil in
+      let '(i, t, ys) := run_steps tol te chain i0 t0 ys0 in
+      rev t = te /\ i = length te /\ length ys = length te.
+Proof. exact teval_exact_forward. Qed.
+Print Assumptions C05_teval_exact_forward.
+
+Theorem C05_teval_exact_backward :
+  forall (tol : R), 0 <= tol -> forall te : list R,
+    (forall i j, (i <= j < length te)%nat -> nth j te 0 <= nth i te 0) ->
+    forall x0 y0 chain,
+      chain_ok_b x0 chain ->
+      (forall v, In v te -> chain_end_b x0 chain <= v <= x0 + tol) ->
+      let '(i0, t0, ys0) := scan_initial Rops tol x0 y0 te 0 nil nil in
+      let '(i, t, ys) := run_steps_b tol te chain i0 t0 ys0 in
+      rev t = te /\ i = length te /\ length ys = length te.
+Proof. exact teval_exact_backward. Qed.
+Print Assumptions C05_teval_exact_backward.
+
+Theorem C05_sample_is_the_scans :
+  forall (C : hconfig (F:=R)) s xold x y sg te,
+    hc_t_eval C = Some te ->
+    let s' := sample Rops C s xold x y sg in
+    (hs_next s', hs_t s', hs_y s') =
+    (if Reqb xold x then scan_initial Rops (hc_tol C) x y (skipn (hs_next s) te) (hs_next s) (hs_t s) (hs_y s)
+     else scan_step Rops (Rltb xold x) (hc_tol C) xold x (interp_of Rops C (length y) sg) (skipn (hs_next s) te)
+                    (hs_next s) (hs_t s) (hs_y s)).
+Proof. exact sample_scans. Qed.
+Print Assumptions C05_sample_is_the_scans.
+
+(* non-vacuity: a two-step chain and three requested times, one of them a duplicate of a step end *)
+Example C05_chain_nonvacuous :
+  chain_ok 0 [(0, 1, fun _ => nil); (1, 3, fun _ => nil)] /\
+  (forall v, In v [1/2; 1; 1] -> 0 - 0 <= v <= chain_end 0 [(0, 1, fun _ : R => @nil R); (1, 3, fun _ => nil)]).
+Proof.
+  split; [cbn; repeat split; lra|]. intros v [<-|[<-|[<-|[]]]]; cbn; lra.
+Qed.
